@@ -144,6 +144,32 @@ def check_config(ctx, F, tag):
     ctx.ob("C12.R2.file-only-through-as-mut", RW + tag, "src/raw_vector.rs", users and not bad, "who-may-access",
            "accesses to .file: %s; other than as_mut()/is_some(): %s" % ({k: sorted(v) for k, v in users.items()}, bad))
 
+    # ---------------- R2c the file is opened create + write + truncate: whatever was at the path before is gone ("the file left
+    # after close() is byte-identical to the serialization" also when a longer file was there)
+    for ctor in (RW + "::new", RW + "::with_buf_len"):
+        b = F.body(ctor)
+        opens = [(bi, t) for bi, t in b.calls() if callee_name(t).startswith("std::fs::OpenOptions::open")]
+        creates = [(bi, t) for bi, t in b.calls() if callee_name(t) in ("std::fs::File::create",)]
+        if creates and not opens:
+            ctx.ob("C12.R2.file-opened-truncating", ctor + tag, loc(creates[0][1]["sp"]), True, "call-chain", "File::create (create + write + truncate)")
+            continue
+        if len(opens) != 1:
+            ctx.ob("C12.R2.file-opened-truncating", ctor + tag, loc(b.raw["span"]), None, "call-chain", "%d OpenOptions::open calls" % len(opens))
+            continue
+        # option setters applied to the same OpenOptions value, in whatever statement form (chained or one by one)
+        setters = {}
+        for bi, t in b.calls():
+            cn = callee_name(t)
+            if cn.startswith("std::fs::OpenOptions::") and cn.split("::")[-1] in ("create", "write", "truncate", "append", "create_new") and len(t["args"]) == 2:
+                setters[cn.split("::")[-1]] = core(b.term_of_operand(t["args"][1]))
+        on = lambda k: setters.get(k, ("const", 0))[:2] == ("const", 1)
+        ok = on("write") and (on("create") or on("create_new")) and (on("truncate") or on("create_new")) and not on("append")
+        ctx.ob("C12.R2.file-opened-truncating", ctor + tag, loc(opens[0][1]["sp"]), ok, "call-chain",
+               "OpenOptions: %s (needed: write, create, truncate; not append)" % {k: tstr(v) for k, v in sorted(setters.items())})
+    # ---------------- R2d the writers' own stores into the buffer carry the value only masked to the item width (shared with C05.R2)
+    import c05
+    from core import Relabel
+    c05.check_masked_direct_stores(Relabel(ctx, {"C05.R2.no-unmasked-direct-store": ("C12.R2.no-unmasked-direct-store", lambda k: "Writer" in k)}), F, tag, "C05.R2")
     # ---------------- R3 counters
     for fn, width_term, pushname in (("<raw_vector::RawVectorWriter as raw_vector::PushRaw>::push_bit", Const(1), "push_bit"),
                                      ("<raw_vector::RawVectorWriter as raw_vector::PushRaw>::push_int", Param(2), "push_int")):
@@ -160,6 +186,13 @@ def check_config(ctx, F, tag):
                 okw = core(b.term_of_operand(pb[0][1]["args"][2]))[:2] == ("param", 2) and core(b.term_of_operand(pb[0][1]["args"][1]))[:2] == ("param", 1)
             ok = okv and okw and comutated(b, st_len[0][0], [pb[0][0]]) and comutated(b, pb[0][0], [st_len[0][0]])
             detail = "len := %s together with buf.%s(..same width..): %s" % (tstr(v), pushname, ok)
+        if not ok:
+            # bits that enter the buffer by direct stores (a fast path that bypasses buf.push_*): a construction this rule cannot pair
+            direct = [st for bi, si, st in b.stmts() if st["s"] == "assign" and st["lhs"]["p"] and
+                      any(isinstance(e, dict) and e.get("name") == "buf" for e in st["lhs"]["p"])]
+            if direct:
+                ok = None
+                detail += "; the buffer is also written by %d direct store(s)" % len(direct)
         ctx.ob("C12.R3.len-counts-pushed-bits", fn + tag, loc(b.raw["span"]), ok, "co-mutation+term", detail)
         fl = [(bi, t) for bi, t in b.calls() if callee_name(t) == RW + "::flush"]
         okt = len(fl) == 1
@@ -190,7 +223,7 @@ def check_config(ctx, F, tag):
         for bi, t in raw:
             good = [x for x in lens if m(Bin("Add", SelfField("len"), Const(1)), ob.term_of_rvalue(x[2]["rv"])) and comutated(ob, bi, [x[0]]) and
                     (x[0] in ob.loop_blocks()) == (bi in ob.loop_blocks())]
-            ctx.ob("C12.R3.int-len-counts-items", ob.name + tag, loc(t["sp"]), bool(good), "co-mutation+term",
+            ctx.ob("C12.R3.int-len-counts-items", ob.name + tag, loc(t["sp"]), bool(good), "co-mutation+term", positive=True, detail=
                    "direct writer.push_int in %s is paired with len += 1 on the same path and in the same loop: %s" % (ob.name, bool(good)))
     # buf_len at the constructors
     dflt = F.const(RW + "::DEFAULT_BUFFER_SIZE")
